@@ -47,6 +47,8 @@ type Case struct {
 	Heavy bool           `json:"heavy,omitempty"`
 	// Pressure marks C14's padding-pressure class (labelling only).
 	Pressure bool `json:"pressure,omitempty"`
+	// ClosedWindow marks the closed-receive-window class (labelling only).
+	ClosedWindow bool `json:"closedWindow,omitempty"`
 }
 
 var mtus = []int{0, 1280, 1281, 1399, 1400, 1499, 1500}
@@ -181,6 +183,25 @@ func Gen(t *rapid.T) Case {
 		pl.MaxAckRun = rapid.IntRange(3, 6).Draw(t, "heavyAckRun")
 	}
 	c.Plan = pl
+	// closed receive window: more segments than a receive queue holds (4096)
+	// towards an application that starts reading late, on a perfect network;
+	// the sender has everything acknowledged and waits for the window to
+	// reopen, which only the receiver's periodic acknowledgement tells it
+	if !c.Heavy && rapid.IntRange(0, 39).Draw(t, "closedWindow") == 0 {
+		n := rapid.IntRange(4300, 4800).Draw(t, "closedWindowWrites")
+		ws := make([]int, n)
+		for i := range ws {
+			ws[i] = 1 + i%3
+		}
+		c.Progs = c.Progs[:1]
+		d := &c.Progs[0].Down
+		if rapid.Bool().Draw(t, "closedWindowUp") {
+			d = &c.Progs[0].Up
+		}
+		d.Writes, d.Reads, d.ReadLag = ws, nil, rapid.SampledFrom([]int{3000, 6000}).Draw(t, "closedWindowLag")
+		c.Plan = Plan{MaxDrops: 1, MaxAckRun: 1, Seed: pl.Seed}
+		c.ClosedWindow = true
+	}
 	return c
 }
 
